@@ -5,6 +5,7 @@ call observe another).
 R20.1 no operation-reachable store into a shared object (models, registries, keys, key sets, bindings, module/class state)
 R20.2 algorithm models are stateless; their attributes hold constants / immutable configuration only
 R20.3 cryptographic contexts are bound to locals of the activation only
+R20.6 memoised functions / properties are exactly the three whitelisted public_key caches
 R20.4 no lost-update pair (a rebinding site and an in-place mutation site of the same shared field)
 R20.5 no global/nonlocal writes, no mutable default arguments
 """
@@ -305,8 +306,36 @@ def r20_5(ctx) -> None:
     ctx.count("R20.5", n, 60, "default argument values")
 
 
+MEMO_WHITELIST = {
+    "rfc7518.rsa_key:RSAKey.public_key": "idempotent cache of an immutable native public key derived from the key's own material (W3)",
+    "rfc7518.ec_key:ECKey.public_key": "idempotent cache of an immutable native public key derived from the key's own material (W3)",
+    "rfc8037.okp_key:OKPKey.public_key": "idempotent cache of an immutable native public key derived from the key's own material (W3)",
+}
+
+
+def r20_6(ctx) -> None:
+    """memoisation keeps a result object alive between calls: every cached function / cached property in the library is either on
+    the whitelist (with its reason) or a violation - a cached mutable result (a decoded header dict) is shared by all callers, a
+    cached view of mutable state (kid, alg) goes stale"""
+    eng = ctx.eng
+    n = 0
+    for fn in eng.prog.all_functions():
+        memo = [d for d in fn.decorators if d.split("(")[0].split(".")[-1] in ("cached_property", "lru_cache", "cache")]
+        if not memo:
+            continue
+        n += 1
+        w = MEMO_WHITELIST.get(fn.short)
+        if w is not None:
+            ctx.ok("R20.6", f"{fn.short} :: @{memo[0]}", "whitelisted: " + w)
+        else:
+            ctx.fail("R20.6", fn, fn.node, f"@{memo[0]} on {fn.short}: the memoised result is one object for every later call (shared if mutable, stale if it mirrors mutable state)",
+                     construct=f"memoised {fn.short}")
+    ctx.count("R20.6", n, 3, "memoised functions / properties")
+
+
 def run(ctx) -> None:
     fx = Effects(ctx.eng.prog, ctx.eng.cg)
+    ctx.guard(r20_6)
     ctx.guard(r20_1, fx)
     ctx.guard(r20_2, fx)
     ctx.guard(r20_3)
